@@ -52,3 +52,196 @@ Qed.
 Lemma nd_take_shape {A} (d : A) (a : nd A) ax idxs keep :
   nd_shape (nd_take d a ax idxs keep) = firstn ax (nd_shape a) ++ (if keep then [length idxs] else []) ++ skipn (S ax) (nd_shape a).
 Proof. reflexivity. Qed.
+
+(** a selection along one axis after index normalisation *)
+Inductive rsel := RAll | ROne (x : nat) | RMany (idxs : list nat).
+
+Definition resolve_sel (size : nat) (s : sel) : res rsel :=
+  match s with
+  | SAbsent => Ok RAll
+  | SInt i => match norm_index size i with Ok x => Ok (ROne x) | Err e => Err e end
+  | SSlice idxs => Ok (RMany idxs)
+  | SList l => match norm_all size l with Ok xs => Ok (RMany xs) | Err e => Err e end
+  end.
+
+(** index of the array before a step, from the index after it *)
+Definition step_index (r : rsel) (ax : nat) (j : list nat) : list nat :=
+  match r with
+  | RAll => j
+  | ROne x => firstn ax j ++ [x] ++ skipn ax j
+  | RMany idxs => firstn ax j ++ [nth (nth ax j 0) idxs 0] ++ skipn (S ax) j
+  end.
+Definition step_shape (r : rsel) (ax : nat) (shape : list nat) : list nat :=
+  match r with
+  | RAll => shape
+  | ROne _ => firstn ax shape ++ skipn (S ax) shape
+  | RMany idxs => firstn ax shape ++ [length idxs] ++ skipn (S ax) shape
+  end.
+Definition rsel_ok (r : rsel) (size : nat) : Prop :=
+  match r with RAll => True | ROne x => x < size | RMany idxs => Forall (fun x => x < size) idxs end.
+
+(** selections are applied last axis first; the index is expanded first axis first *)
+Fixpoint expand (rs : list rsel) (ax : nat) (j : list nat) : list nat :=
+  match rs with [] => j | r :: rest => expand rest (S ax) (step_index r ax j) end.
+Fixpoint result_shape (rs : list rsel) (ax : nat) (shape : list nat) : list nat :=
+  match rs with [] => shape | r :: rest => step_shape r ax (result_shape rest (S ax) shape) end.
+
+Definition apply_step {A} (d : A) (a : nd A) (r : rsel) (ax : nat) : nd A :=
+  match r with RAll => a | ROne x => nd_take d a ax [x] false | RMany idxs => nd_take d a ax idxs true end.
+Fixpoint apply_r {A} (d : A) (a : nd A) (rs : list rsel) (ax : nat) : nd A :=
+  match rs with [] => a | r :: rest => apply_step d (apply_r d a rest (S ax)) r ax end.
+
+Lemma apply_r_shape {A} (d : A) (a : nd A) rs : forall ax, nd_shape (apply_r d a rs ax) = result_shape rs ax (nd_shape a).
+Proof.
+  induction rs as [|r rs IH]; intros ax; [reflexivity|]. cbn [apply_r result_shape]. rewrite <- IH.
+  destruct r; reflexivity.
+Qed.
+
+(** steps on later axes leave the earlier axes alone *)
+Lemma step_shape_length r ax sh : ax < length sh -> ax <= length (step_shape r ax sh).
+Proof.
+  intros H. destruct r; cbn [step_shape]; [lia| |]; rewrite app_length, firstn_length; lia.
+Qed.
+
+Lemma result_shape_length rs : forall ax shape, ax + length rs <= length shape -> ax <= length (result_shape rs ax shape).
+Proof.
+  induction rs as [|r rs IH]; intros ax shape H; cbn [result_shape length] in *; [lia|].
+  apply step_shape_length. specialize (IH (S ax) shape ltac:(lia)). lia.
+Qed.
+
+Lemma step_shape_prefix r ax sh p : ax < length sh -> p < ax -> nth p (step_shape r ax sh) 1 = nth p sh 1.
+Proof.
+  intros Hl Hp. destruct r; cbn [step_shape]; [reflexivity| |];
+    (rewrite app_nth1 by (rewrite firstn_length; lia); now apply nth_firstn_lt).
+Qed.
+
+Lemma result_shape_prefix rs : forall ax shape p, ax + length rs <= length shape -> p < ax ->
+  nth p (result_shape rs ax shape) 1 = nth p shape 1.
+Proof.
+  induction rs as [|r rs IH]; intros ax shape p H Hp; [reflexivity|]. cbn [result_shape length] in *.
+  pose proof (result_shape_length rs (S ax) shape ltac:(lia)) as Hl.
+  rewrite step_shape_prefix by lia. apply IH; lia.
+Qed.
+
+Lemma split_at {A} (l : list A) ax d : ax < length l -> l = firstn ax l ++ [nth ax l d] ++ skipn (S ax) l.
+Proof.
+  revert ax. induction l as [|x l IH]; intros ax H; simpl in *; [lia|]. destruct ax; simpl; [reflexivity|]. f_equal. apply IH. lia.
+Qed.
+
+Lemma step_index_inbounds r ax sh j : ax < length sh -> rsel_ok r (nth ax sh 1) ->
+  inbounds j (step_shape r ax sh) -> inbounds (step_index r ax j) sh.
+Proof.
+  intros Hl Hok Hj. destruct r as [|x|idxs]; cbn [step_shape step_index rsel_ok] in *; [exact Hj| |].
+  - assert (Hlen : length (firstn ax j) = length (firstn ax sh)).
+    { rewrite !firstn_length. rewrite (inbounds_length _ _ Hj), app_length, firstn_length, skipn_length. lia. }
+    rewrite <- (firstn_skipn ax j) in Hj. destruct (inbounds_app_inv _ _ _ _ Hlen Hj) as [H1 H2].
+    rewrite (split_at sh ax 1 Hl) at 1. apply inbounds_app; [exact H1|]. simpl. split; [exact Hok|exact H2].
+  - assert (Hlen : length (firstn ax j) = length (firstn ax sh)).
+    { rewrite !firstn_length. rewrite (inbounds_length _ _ Hj), !app_length, firstn_length, skipn_length. simpl. lia. }
+    assert (Hjl : ax < length j) by (rewrite (inbounds_length _ _ Hj), !app_length, firstn_length; simpl; lia).
+    rewrite (split_at j ax 0 Hjl) in Hj at 1. destruct (inbounds_app_inv _ _ _ _ Hlen Hj) as [H1 H2]. simpl in H2. destruct H2 as [Hm H2].
+    rewrite (split_at sh ax 1 Hl) at 1. apply inbounds_app; [exact H1|]. simpl. split; [|exact H2].
+    rewrite Forall_forall in Hok. apply Hok, nth_In, Hm.
+Qed.
+
+Lemma apply_step_get {A} (d : A) (a : nd A) r ax j : ax < length (nd_shape a) ->
+  inbounds j (step_shape r ax (nd_shape a)) -> nd_get d (apply_step d a r ax) j = nd_get d a (step_index r ax j).
+Proof.
+  intros Hl Hj. destruct r as [|x|idxs]; cbn [apply_step step_index step_shape] in *; [reflexivity| |].
+  - apply nd_take_drop_get; [lia|exact Hj].
+  - now apply nd_take_keep_get.
+Qed.
+
+Definition rs_ok (rs : list rsel) (ax : nat) (shape : list nat) : Prop :=
+  forall i, i < length rs -> rsel_ok (nth i rs RAll) (nth (ax + i) shape 1).
+
+(** the element at index j of the result is the element of the source at the expanded index *)
+Theorem apply_r_get {A} (d : A) (a : nd A) rs : forall ax j,
+  ax + length rs <= length (nd_shape a) -> rs_ok rs ax (nd_shape a) ->
+  inbounds j (result_shape rs ax (nd_shape a)) ->
+  nd_get d (apply_r d a rs ax) j = nd_get d a (expand rs ax j) /\ inbounds (expand rs ax j) (nd_shape a).
+Proof.
+  induction rs as [|r rs IH]; intros ax j Hwf Hok Hj; cbn [apply_r expand result_shape length] in *; [split; [reflexivity|exact Hj]|].
+  set (a' := apply_r d a rs (S ax)).
+  assert (Hsh : nd_shape a' = result_shape rs (S ax) (nd_shape a)) by apply apply_r_shape.
+  pose proof (result_shape_length rs (S ax) (nd_shape a) ltac:(lia)) as Hlen.
+  assert (Hax : ax < length (nd_shape a')) by (rewrite Hsh; lia).
+  assert (Hsize : nth ax (nd_shape a') 1 = nth ax (nd_shape a) 1) by (rewrite Hsh; apply result_shape_prefix; lia).
+  assert (Hr : rsel_ok r (nth ax (nd_shape a') 1)).
+  { rewrite Hsize. specialize (Hok 0 ltac:(simpl; lia)). cbn [nth] in Hok. now rewrite Nat.add_0_r in Hok. }
+  rewrite <- Hsh in Hj.
+  rewrite (apply_step_get d a' r ax j Hax Hj).
+  pose proof (step_index_inbounds r ax (nd_shape a') j Hax Hr Hj) as Hj'. rewrite Hsh in Hj'.
+  apply IH; [lia| |exact Hj'].
+  intros i Hi. specialize (Hok (S i) ltac:(simpl; lia)). cbn [nth] in Hok. now replace (S ax + i) with (ax + S i) by lia.
+Qed.
+
+(** ** from the selections as the caller gave them *)
+Lemma norm_index_lt size i x : norm_index size i = Ok x -> x < size.
+Proof.
+  unfold norm_index. destruct ((0 <=? i)%Z && (i <? Z.of_nat size)%Z) eqn:E1.
+  - intros [= <-]. apply andb_true_iff in E1. destruct E1 as [H1 H2]. apply Z.leb_le in H1. apply Z.ltb_lt in H2. lia.
+  - destruct ((i <? 0)%Z && (- Z.of_nat size <=? i)%Z) eqn:E2; [|discriminate].
+    intros [= <-]. apply andb_true_iff in E2. destruct E2 as [H1 H2]. apply Z.ltb_lt in H1. apply Z.leb_le in H2. lia.
+Qed.
+Lemma norm_all_lt size l : forall xs, norm_all size l = Ok xs -> Forall (fun x => x < size) xs.
+Proof.
+  induction l as [|i l IH]; intros xs H; simpl in H; [injection H as <-; constructor|].
+  destruct (norm_index size i) as [x|] eqn:E1; [|discriminate]. destruct (norm_all size l) as [xs'|] eqn:E2; [|discriminate].
+  injection H as <-. constructor; [now apply (norm_index_lt size i)|now apply IH].
+Qed.
+
+(** slice objects arrive already resolved to their index lists; those lie inside the axis *)
+Definition slice_in_range (s : sel) (size : nat) : Prop :=
+  match s with SSlice idxs => Forall (fun x => x < size) idxs | _ => True end.
+
+Lemma resolve_sel_ok size s r : resolve_sel size s = Ok r -> slice_in_range s size -> rsel_ok r size.
+Proof.
+  destruct s as [|i|idxs|l]; cbn [resolve_sel slice_in_range rsel_ok].
+  - intros [= <-] _. exact I.
+  - destruct (norm_index size i) as [x|] eqn:E; [|discriminate]. intros [= <-] _. now apply (norm_index_lt size i).
+  - intros [= <-] H. exact H.
+  - destruct (norm_all size l) as [xs|] eqn:E; [|discriminate]. intros [= <-] _. now apply (norm_all_lt size l).
+Qed.
+
+Lemma apply_nd_resolved {A} (d : A) (a : nd A) sels : forall ax res,
+  ax + length sels <= length (nd_shape a) -> apply_nd d a sels ax = Ok res ->
+  exists rs, length rs = length sels /\ res = apply_r d a rs ax /\
+    forall i, i < length sels -> resolve_sel (nth (ax + i) (nd_shape a) 1) (nth i sels SAbsent) = Ok (nth i rs RAll).
+Proof.
+  induction sels as [|s sels IH]; intros ax res Hwf H; cbn [apply_nd length] in *.
+  - injection H as <-. exists []. split; [reflexivity|]. split; [reflexivity|]. intros i Hi. lia.
+  - destruct (apply_nd d a sels (S ax)) as [a'|] eqn:E; [|discriminate].
+    destruct (IH (S ax) a' ltac:(lia) E) as (rs & Hl & -> & Hres).
+    assert (Hsize : nth ax (nd_shape (apply_r d a rs (S ax))) 1 = nth ax (nd_shape a) 1).
+    { rewrite apply_r_shape. apply result_shape_prefix; lia. }
+    rewrite Hsize in H.
+    assert (Hstep : exists r, resolve_sel (nth ax (nd_shape a) 1) s = Ok r /\ res = apply_step d (apply_r d a rs (S ax)) r ax).
+    { destruct s as [|i|idxs|l]; cbn [resolve_sel].
+      - injection H as <-. exists RAll. auto.
+      - destruct (norm_index _ i) as [x|]; [|discriminate]. injection H as <-. exists (ROne x). auto.
+      - injection H as <-. exists (RMany idxs). auto.
+      - destruct (norm_all _ l) as [xs|]; [|discriminate]. injection H as <-. exists (RMany xs). auto. }
+    destruct Hstep as (r & Hr & ->). exists (r :: rs). split; [simpl; lia|]. split; [reflexivity|].
+    intros [|i] Hi; cbn [nth]; [now rewrite Nat.add_0_r|]. replace (ax + S i) with (S ax + i) by lia. apply Hres. lia.
+Qed.
+
+(** N-D slicing, all axes, any mixture of integers, slices and at most one list: the result has the expected shape and its
+    element at j is the element of the view at the index obtained by putting the chosen index back on every sliced axis *)
+Theorem slice_nd_elements {A} (d : A) (view : nd A) (sels : list sel) (res : nd A) :
+  slice_nd d view sels = Ok res -> length sels <= length (nd_shape view) ->
+  (forall i, i < length sels -> slice_in_range (nth i sels SAbsent) (nth i (nd_shape view) 1)) ->
+  exists rs, length rs = length sels /\
+    (forall i, i < length sels -> resolve_sel (nth i (nd_shape view) 1) (nth i sels SAbsent) = Ok (nth i rs RAll)) /\
+    nd_shape res = result_shape rs 0 (nd_shape view) /\
+    forall j, inbounds j (nd_shape res) ->
+      nd_get d res j = nd_get d view (expand rs 0 j) /\ inbounds (expand rs 0 j) (nd_shape view).
+Proof.
+  intros H Hlen Hrange. unfold slice_nd in H.
+  destruct (negb (bounds_ok (nd_shape view) sels)); [discriminate|].
+  destruct (Nat.ltb 1 (length (filter is_list sels))); [discriminate|].
+  destruct (apply_nd_resolved d view sels 0 res ltac:(lia) H) as (rs & Hl & -> & Hres).
+  exists rs. split; [exact Hl|]. split; [exact Hres|]. split; [apply apply_r_shape|].
+  intros j Hj. rewrite apply_r_shape in Hj. apply apply_r_get; [lia| |exact Hj].
+  intros i Hi. rewrite Hl in Hi. cbn [Nat.add]. apply (resolve_sel_ok _ (nth i sels SAbsent)); [now apply Hres|now apply Hrange].
+Qed.
